@@ -41,7 +41,8 @@ def norm_stmt(node) -> str:
 class _Normaliser(ast.NodeTransformer):
     """semantics-preserving normal form of the analysed AST, so that syntactic rules see one shape for equivalent code:
          X = E; return X            ->  return E            (adjacent statements, X a plain name)
-         if not C: B  else: A       ->  if C: A  else: B    (a real else branch, not an elif chain)"""
+         if not C: B  else: A       ->  if C: A  else: B    (a real else branch, not an elif chain)
+         x: T = E                   ->  x = E               (annotations carry no behaviour; class-level ones are kept by _index first)"""
 
     _counts = None
 
@@ -130,6 +131,13 @@ class _Normaliser(ast.NodeTransformer):
             if isinstance(b, list) and b and isinstance(b[0], ast.stmt):
                 setattr(node, f, self._block(b))
         return node
+
+    def visit_AnnAssign(self, node):
+        # type hints do not change behaviour:  x: T = E  ->  x = E ;  bare  x: T  ->  pass
+        self.generic_visit(node)
+        if node.value is None:
+            return ast.copy_location(ast.Pass(), node)
+        return ast.copy_location(ast.Assign(targets=[node.target], value=node.value), node)
 
     def visit_If(self, node):
         self.generic_visit(node)
